@@ -19,6 +19,7 @@ import (
 	"github.com/samaritan-proxy/samaritan/host"
 	"github.com/samaritan-proxy/samaritan/proc"
 	"github.com/samaritan-proxy/samaritan/stats"
+	"github.com/samaritan-proxy/samaritan/utils"
 )
 
 func (sp *simProxy) snapshot() string {
@@ -369,6 +370,68 @@ func runC20Shared() (string, string) {
 	return strings.Join(events, " "), a.snapshot()
 }
 
+// runC20TCPDial: the TCP processor is dialling a backend whose connects hang (full accept queue) when that host is removed
+// from the service (or the service is stopped); the dial then completes. However the relay ends, the upstream connection
+// that was counted is counted as destroyed: total = destroyed and active = 0 at quiescence.
+func runC20TCPDial(stop bool) string {
+	addr, release, closeBh := newSlowConnect()
+	defer closeBh()
+	port := freePort()
+	cfg := tcpConfig(port)
+	cfg.ConnectTimeout = utils.DurationPtr(4 * time.Second)
+	simProxySeq++
+	name := fmt.Sprintf("sim%d", simProxySeq)
+	p, err := proc.New(name, cfg, []*host.Host{host.New(addr)})
+	if err != nil {
+		return "NEW-FAILED"
+	}
+	p.Start()
+	sp := &simProxy{p: p, name: name, addr: fmt.Sprintf("127.0.0.1:%d", port)}
+	stopped := false
+	defer func() {
+		if !stopped {
+			stopProxy(sp)
+		}
+	}()
+	var c net.Conn
+	for t := 0; t < 400 && c == nil; t++ {
+		if x, err := net.DialTimeout("tcp", sp.addr, 100*time.Millisecond); err == nil {
+			c = x
+		} else {
+			time.Sleep(5 * time.Millisecond)
+		}
+	}
+	if c == nil {
+		return "NOT-LISTENING"
+	}
+	defer c.Close()
+	time.Sleep(150 * time.Millisecond) // the processor is inside its dial now
+	if stop {
+		stopped = true
+		go p.Stop()
+		time.Sleep(50 * time.Millisecond)
+	} else {
+		p.OnSvcHostRemove([]*host.Host{host.New(addr)})
+	}
+	release() // the retransmitted SYN completes the connect within about a second
+	// the client's connection is closed by the processor once the relay has ended
+	c.SetReadDeadline(time.Now().Add(5 * time.Second))
+	buf := make([]byte, 16)
+	_, rerr := c.Read(buf)
+	closedByProxy := rerr != nil && !strings.Contains(rerr.Error(), "timeout")
+	ok := waitFor(3*time.Second, func() bool {
+		return sp.counter("upstream.cx_total") == sp.counter("upstream.cx_destroy_total") && sp.gauge("upstream.cx_active") == 0
+	})
+	res := "conserved"
+	if !ok {
+		res = fmt.Sprintf("NOT-CONSERVED: upstream cx_total=%d cx_destroy=%d cx_active=%d", sp.counter("upstream.cx_total"), sp.counter("upstream.cx_destroy_total"), int64(sp.gauge("upstream.cx_active")))
+	}
+	if !closedByProxy {
+		res += " CLIENT-LEFT-OPEN"
+	}
+	return res + " || upstream_conserved=1 || gauges=ok"
+}
+
 // runC20Abrupt: a client pipelines more requests than the session takes in at once (the reader is busy handing them
 // on) to slow nodes and resets its connection: replies can no longer be written. Whatever was read is counted once, by
 // its outcome: at quiescence the equations hold.
@@ -439,6 +502,11 @@ func init() {
 			fmt.Fprintln(cases, ev)
 			fmt.Fprintln(impl, snap)
 			hist["a service without endpoints"]++
+		}
+		for _, stop := range []bool{false, true} {
+			fmt.Fprintf(cases, "ABRUPT tcp-dial stop=%v\n", stop)
+			fmt.Fprintln(impl, runC20TCPDial(stop))
+			hist["TCP: host removed / service stopped during the dial"]++
 		}
 		{
 			ev, snap := runC20Shared()
